@@ -5,6 +5,7 @@ open XotModel.Props
 #print axioms C10_stack_invariant
 #print axioms C10_stack_push
 #print axioms C10_stack_pop
+#print axioms C10_resolve_lookup
 #print axioms C10_sound_partial
 #print axioms C10_sound_attribute
 #print axioms C10_sound_false
